@@ -29,7 +29,7 @@ READY = {
     "OHVerif.Props.C09", "OHVerif.Props.C11", "OHVerif.Props.C15",
     "OHVerif.Props.C12", "OHVerif.Props.C13", "OHVerif.Props.C14", "OHVerif.Props.C19",
     "OHVerif.Props.C04", "OHVerif.Props.C10", "OHVerif.Props.C17", "OHVerif.Props.C18",
-    "OHVerif.Props.C16", "OHVerif.Props.C20",
+    "OHVerif.Props.C16", "OHVerif.Props.C20", "OHVerif.Props.C03",
 }
 
 def _mods(*names):
